@@ -415,6 +415,23 @@ class Gen:
         self.rel = False
         return out
 
+    def renarrow(self):
+        """Limits set, a value accepted under them, the limits narrowed so that the value is outside, and the same value asked
+        for again at once (added after seed C03j: the last accepted value was remembered across the change of limits)."""
+        r = self.r
+        name = r.choice(["feed-rate", "tool-power"])
+        wide, narrow = ((100.0, 3000.0), (100.0, 1000.0)) if name == "feed-rate" else ((0.0, 10000.0), (0.0, 5000.0))
+        v = float(r.choice([narrow[1] + 500.0, wide[1], narrow[1] + self.step]))
+        def ask():
+            if r.random() < 0.5:
+                return {"call": "set_feed_rate" if name == "feed-rate" else "set_tool_power", "val": v}
+            ax = [None, None, None]
+            ax[r.randrange(3)] = self.num(2, 18) if not getattr(self, "rel", False) else self.num(-2, 2)
+            return {"call": "move", "ax": ax, ("F" if name == "feed-rate" else "S"): v}
+        self.bounds[name] = narrow
+        return [{"call": "set_bounds", "name": name, "lo": wide[0], "hi": wide[1]}, ask(),
+                {"call": "set_bounds", "name": name, "lo": narrow[0], "hi": narrow[1]}, ask()]
+
     def dance(self):
         """A word set on a move, changed through its own setter, and set back on a move (added after seed C07h): the second
         move must carry the word again -- two records of 'the value in force' (last move parameter / modal state) exist."""
@@ -444,6 +461,9 @@ class Gen:
             return self.convert()
         if self.profile == "bounds" and self.depth == 0 and self.r.random() < 0.02:
             q.extend(self.phantom())
+            return q.pop(0)
+        if self.profile == "bounds" and self.r.random() < 0.02:
+            q.extend(self.renarrow())
             return q.pop(0)
         r = self.r
         p = self.profile
